@@ -1,5 +1,5 @@
 //! Response side: C05, C06, C13 (status), C14 (via HTTP), C15, C16, C19.
-use crate::exec::block_on;
+use crate::exec::{parse_variant, Delay};
 use crate::kinds::FakeError;
 use crate::proto::*;
 use oauth2::basic::*;
@@ -155,7 +155,7 @@ fn okv<V: Serialize>(r: String, v: &V) -> String {
 }
 
 macro_rules! run_kind {
-    ($client:expr, $kind:expr, $asyncv:expr, $sc:expr, $ac:expr, $devty:ty) => {{
+    ($client:expr, $kind:expr, $asyncv:expr, $sc:expr, $ac:expr, $devty:ty, $variant:expr) => {{
         let client = $client;
         let rt = RefreshToken::new("r".to_string());
         let u = ResourceOwnerUsername::new("u".to_string());
@@ -164,39 +164,39 @@ macro_rules! run_kind {
         match $kind {
             "code" => {
                 let req = client.exchange_code(AuthorizationCode::new("c".to_string()));
-                let r = if $asyncv { block_on(req.request_async(&$ac)) } else { req.request(&$sc) };
+                let r = if $asyncv { $variant.drive(req.request_async(&$ac)) } else { req.request(&$sc) };
                 render_result(r, |v| okv(render_token(v), v))
             }
             "refresh" => {
                 let req = client.exchange_refresh_token(&rt);
-                let r = if $asyncv { block_on(req.request_async(&$ac)) } else { req.request(&$sc) };
+                let r = if $asyncv { $variant.drive(req.request_async(&$ac)) } else { req.request(&$sc) };
                 render_result(r, |v| okv(render_token(v), v))
             }
             "password" => {
                 let req = client.exchange_password(&u, &p);
-                let r = if $asyncv { block_on(req.request_async(&$ac)) } else { req.request(&$sc) };
+                let r = if $asyncv { $variant.drive(req.request_async(&$ac)) } else { req.request(&$sc) };
                 render_result(r, |v| okv(render_token(v), v))
             }
             "cc" => {
                 let req = client.exchange_client_credentials();
-                let r = if $asyncv { block_on(req.request_async(&$ac)) } else { req.request(&$sc) };
+                let r = if $asyncv { $variant.drive(req.request_async(&$ac)) } else { req.request(&$sc) };
                 render_result(r, |v| okv(render_token(v), v))
             }
             "introspect" => {
                 let req = client.introspect(&at);
-                let r = if $asyncv { block_on(req.request_async(&$ac)) } else { req.request(&$sc) };
+                let r = if $asyncv { $variant.drive(req.request_async(&$ac)) } else { req.request(&$sc) };
                 render_result(r, |v| okv(render_intro(v), v))
             }
             "devauth" => {
                 let req = client.exchange_device_code();
-                let r: Result<$devty, _> = if $asyncv { block_on(req.request_async(&$ac)) } else { req.request(&$sc) };
+                let r: Result<$devty, _> = if $asyncv { $variant.drive(req.request_async(&$ac)) } else { req.request(&$sc) };
                 render_result(r, |v| okv(render_dev(v), v))
             }
             "revoke" => {
                 let req = client
                     .revoke_token(StandardRevocableToken::AccessToken(AccessToken::new("t".to_string())))
                     .unwrap();
-                let r = if $asyncv { block_on(req.request_async(&$ac)) } else { req.request(&$sc) };
+                let r = if $asyncv { $variant.drive(req.request_async(&$ac)) } else { req.request(&$sc) };
                 render_result(r, |_v| "ok unit".to_string())
             }
             _ => BAD.into(),
@@ -209,7 +209,11 @@ pub fn run(ws: &[&str]) -> String {
     if ws.len() != 7 {
         return BAD.into();
     }
-    let asyncv = ws[0] != "sync";
+    let variant = match parse_variant(ws[0]) {
+        Some(v) => v,
+        None => return BAD.into(),
+    };
+    let asyncv = !variant.is_sync();
     let kind = ws[1];
     let ext = ws[2] == "X";
     let status: u16 = match ws[3].parse() {
@@ -236,10 +240,7 @@ pub fn run(ws: &[&str]) -> String {
         Ok(b.body(body.clone()).unwrap())
     };
     let sync_client = |_r: HttpRequest| reply();
-    let async_client = |_r: HttpRequest| {
-        let r = reply();
-        async move { r }
-    };
+    let async_client = |_r: HttpRequest| Delay { n: variant.k(), v: Some(reply()) };
     let id = ClientId::new("aaa".to_string());
     let sec = ClientSecret::new("bbb".to_string());
     let t_url = TokenUrl::new("https://example.com/token".to_string()).unwrap();
@@ -251,7 +252,7 @@ pub fn run(ws: &[&str]) -> String {
             .set_introspection_url(IntrospectionUrl::new("https://example.com/i".to_string()).unwrap())
             .set_device_authorization_url(DeviceAuthorizationUrl::new("https://example.com/d".to_string()).unwrap())
             .set_revocation_url(RevocationUrl::new("https://example.com/r".to_string()).unwrap());
-        run_kind!(client, kind, asyncv, sync_client, async_client, XDev)
+        run_kind!(client, kind, asyncv, sync_client, async_client, XDev, variant)
     } else {
         let client = BasicClient::new(id)
             .set_client_secret(sec)
@@ -259,7 +260,7 @@ pub fn run(ws: &[&str]) -> String {
             .set_introspection_url(IntrospectionUrl::new("https://example.com/i".to_string()).unwrap())
             .set_device_authorization_url(DeviceAuthorizationUrl::new("https://example.com/d".to_string()).unwrap())
             .set_revocation_url(RevocationUrl::new("https://example.com/r".to_string()).unwrap());
-        run_kind!(client, kind, asyncv, sync_client, async_client, StandardDeviceAuthorizationResponse)
+        run_kind!(client, kind, asyncv, sync_client, async_client, StandardDeviceAuthorizationResponse, variant)
     };
     format!("{} calls={}", out, calls.get())
 }
@@ -392,4 +393,130 @@ pub fn built(ws: &[&str]) -> String {
         }
         _ => BAD.into(),
     }
+}
+
+/// `ILV k schedule r1 r2 ...` (r = kind/status/ct/body): several requests in flight from ONE
+/// shared client, polled in the given interleaving by a hand-written executor.
+pub fn interleave(ws: &[&str]) -> String {
+    use std::future::Future;
+    use std::pin::Pin;
+    use std::sync::Arc;
+    use std::task::{Context, Poll, Wake, Waker};
+    if ws.len() < 3 {
+        return BAD.into();
+    }
+    let k: usize = match ws[0].parse() {
+        Ok(k) => k,
+        Err(_) => return BAD.into(),
+    };
+    let sched: Vec<usize> = if ws[1] == "." { vec![] } else { ws[1].split(',').filter_map(|s| s.parse().ok()).collect() };
+    struct Spec {
+        kind: String,
+        status: u16,
+        ct: Option<Vec<u8>>,
+        body: Vec<u8>,
+    }
+    let mut specs = vec![];
+    for r in &ws[2..] {
+        let p: Vec<&str> = r.split('/').collect();
+        if p.len() != 4 {
+            return BAD.into();
+        }
+        let (st, ct, body) = match (p[1].parse::<u16>(), untok_opt_bytes(p[2]), untok_bytes(p[3])) {
+            (Ok(s), Some(c), Some(b)) => (s, c, b),
+            _ => return BAD.into(),
+        };
+        if st != 0 && !(100..=999).contains(&st) {
+            return BAD.into();
+        }
+        specs.push(Spec { kind: p[0].to_string(), status: st, ct, body });
+    }
+    let client = BasicClient::new(ClientId::new("aaa".to_string()))
+        .set_client_secret(ClientSecret::new("bbb".to_string()))
+        .set_token_uri(TokenUrl::new("https://example.com/token".to_string()).unwrap())
+        .set_introspection_url(IntrospectionUrl::new("https://example.com/i".to_string()).unwrap())
+        .set_device_authorization_url(DeviceAuthorizationUrl::new("https://example.com/d".to_string()).unwrap())
+        .set_revocation_url(RevocationUrl::new("https://example.com/r".to_string()).unwrap());
+    let rt = RefreshToken::new("r".to_string());
+    let u = ResourceOwnerUsername::new("u".to_string());
+    let p = ResourceOwnerPassword::new("p".to_string());
+    let at = AccessToken::new("t".to_string());
+    let calls: Vec<Cell<u32>> = specs.iter().map(|_| Cell::new(0)).collect();
+    // one HTTP client closure per request
+    let clients: Vec<Box<dyn Fn(HttpRequest) -> Delay<Result<HttpResponse, FakeError>> + '_>> = specs
+        .iter()
+        .enumerate()
+        .map(|(i, s)| {
+            let calls = &calls;
+            Box::new(move |_r: HttpRequest| {
+                calls[i].set(calls[i].get() + 1);
+                let res = if s.status == 0 {
+                    Err(FakeError("transport".into()))
+                } else {
+                    let mut b = http::Response::builder().status(s.status);
+                    if let Some(ct) = &s.ct {
+                        b = b.header(http::header::CONTENT_TYPE, http::HeaderValue::from_bytes(ct).unwrap());
+                    }
+                    Ok(b.body(s.body.clone()).unwrap())
+                };
+                Delay { n: k + i, v: Some(res) }
+            }) as Box<dyn Fn(HttpRequest) -> Delay<Result<HttpResponse, FakeError>> + '_>
+        })
+        .collect();
+    let mut futs: Vec<Pin<Box<dyn Future<Output = String> + '_>>> = vec![];
+    for (i, s) in specs.iter().enumerate() {
+        let c = &clients[i];
+        let client = &client;
+        let (rt, u, p, at) = (&rt, &u, &p, &at);
+        let f: Pin<Box<dyn Future<Output = String> + '_>> = match s.kind.as_str() {
+            "code" => Box::pin(async move { render_result(client.exchange_code(AuthorizationCode::new("c".to_string())).request_async(c).await, |v| okv(render_token(v), v)) }),
+            "refresh" => Box::pin(async move { render_result(client.exchange_refresh_token(rt).request_async(c).await, |v| okv(render_token(v), v)) }),
+            "password" => Box::pin(async move { render_result(client.exchange_password(u, p).request_async(c).await, |v| okv(render_token(v), v)) }),
+            "cc" => Box::pin(async move { render_result(client.exchange_client_credentials().request_async(c).await, |v| okv(render_token(v), v)) }),
+            "introspect" => Box::pin(async move { render_result(client.introspect(at).request_async(c).await, |v| okv(render_intro(v), v)) }),
+            "devauth" => Box::pin(async move {
+                let r: Result<StandardDeviceAuthorizationResponse, _> = client.exchange_device_code().request_async(c).await;
+                render_result(r, |v| okv(render_dev(v), v))
+            }),
+            "revoke" => Box::pin(async move {
+                let req = client.revoke_token(StandardRevocableToken::AccessToken(AccessToken::new("t".to_string()))).unwrap();
+                render_result(req.request_async(c).await, |_v| "ok unit".to_string())
+            }),
+            _ => return BAD.into(),
+        };
+        futs.push(f);
+    }
+    struct Noop;
+    impl Wake for Noop {
+        fn wake(self: Arc<Self>) {}
+    }
+    let waker = Waker::from(Arc::new(Noop));
+    let mut cx = Context::from_waker(&waker);
+    let n = futs.len();
+    let mut done: Vec<Option<String>> = vec![None; n];
+    let mut poll_one = |i: usize, futs: &mut Vec<Pin<Box<dyn Future<Output = String> + '_>>>, done: &mut Vec<Option<String>>| {
+        if i < n && done[i].is_none() {
+            if let Poll::Ready(s) = futs[i].as_mut().poll(&mut cx) {
+                done[i] = Some(s);
+            }
+        }
+    };
+    for &i in &sched {
+        poll_one(i, &mut futs, &mut done);
+    }
+    let mut rounds = 0;
+    while done.iter().any(|d| d.is_none()) {
+        for i in 0..n {
+            poll_one(i, &mut futs, &mut done);
+        }
+        rounds += 1;
+        if rounds > 100000 {
+            return "HANG".into();
+        }
+    }
+    done.into_iter()
+        .enumerate()
+        .map(|(i, d)| format!("{} calls={}", d.unwrap(), calls[i].get()))
+        .collect::<Vec<_>>()
+        .join(" || ")
 }
